@@ -42,6 +42,8 @@ impl Class {
 struct PointFault {
     errno: i32,
     after: Option<u64>,
+    // false: the fault hits this one call only (a transient condition that has cleared on the next attempt)
+    sticky: bool,
 }
 
 #[derive(Default)]
@@ -62,6 +64,10 @@ struct Plan {
     crashw: Option<(u64, Option<u64>)>,
     crashr: Option<(u64, bool)>,
     failr: HashMap<u64, i32>,
+    // the source of the j-th rename disappears just before the rename (another process cleaned it up)
+    vanishr: Option<u64>,
+    // simulated clock: every Instant::now() advances time by this many milliseconds
+    clock_step_ms: Option<u64>,
 }
 
 struct State {
@@ -131,6 +137,7 @@ fn load_plan(path: &str) -> Plan {
                     PointFault {
                         errno: num(2) as i32,
                         after: None,
+                        sticky: true,
                     },
                 );
             }
@@ -140,6 +147,7 @@ fn load_plan(path: &str) -> Plan {
                     PointFault {
                         errno: num(2) as i32,
                         after: Some(num(4)),
+                        sticky: true,
                     },
                 );
             }
@@ -155,6 +163,7 @@ fn load_plan(path: &str) -> Plan {
                     PointFault {
                         errno: num(2) as i32,
                         after: None,
+                        sticky: true,
                     },
                 );
             }
@@ -164,9 +173,22 @@ fn load_plan(path: &str) -> Plan {
                     PointFault {
                         errno: num(2) as i32,
                         after: Some(num(4)),
+                        sticky: true,
                     },
                 );
             }
+            "failw" if t.len() == 4 && t[3] == "once" => {
+                plan.failw.insert(
+                    num(1),
+                    PointFault {
+                        errno: num(2) as i32,
+                        after: None,
+                        sticky: false,
+                    },
+                );
+            }
+            "vanishr" if t.len() == 2 => plan.vanishr = Some(num(1)),
+            "clock" if t.len() == 2 => plan.clock_step_ms = Some(num(1)),
             "crashw" if t.len() == 2 => plan.crashw = Some((num(1), None)),
             "crashw" if t.len() == 4 && t[2] == "after" => plan.crashw = Some((num(1), Some(num(3)))),
             "failr" if t.len() == 3 => {
@@ -462,7 +484,9 @@ impl Write for File {
                 .copied()
                 .or_else(|| st.plan.failw.get(&nth).copied());
             if let Some(f) = planned {
-                st.broken.insert(self.name.clone(), f.errno);
+                if f.sticky {
+                    st.broken.insert(self.name.clone(), f.errno);
+                }
                 let k = (f.after.unwrap_or(0) as usize).min(want);
                 if k == 0 {
                     return Err(err(f.errno));
@@ -558,6 +582,9 @@ pub fn rename<P: AsRef<Path>, Q: AsRef<Path>>(from: P, to: Q) -> io::Result<()> 
             std::process::abort();
         }
     }
+    if st.plan.vanishr == Some(nth_rename) {
+        let _ = std::fs::remove_file(from.as_ref());
+    }
     let src_size = std::fs::metadata(from.as_ref())
         .map(|m| m.len() as i64)
         .unwrap_or(-1);
@@ -641,5 +668,34 @@ pub fn par_point(site: u32, key: u64) {
     };
     if ticks > 0 && unit > 0 {
         std::thread::sleep(std::time::Duration::from_micros(ticks * unit));
+    }
+}
+
+
+/// Clock seam for the progress reporting in `parser/mod.rs`: real elapsed time by default; with a
+/// `clock <ms>` directive in the plan every call advances a simulated clock by that step, so the
+/// "every 10 seconds" branch can be driven deterministically (including clock jumps).
+#[derive(Clone, Copy)]
+pub struct Instant(std::time::Duration);
+
+impl Instant {
+    pub fn now() -> Instant {
+        static START: OnceLock<std::time::Instant> = OnceLock::new();
+        static TICKS: std::sync::atomic::AtomicU64 = std::sync::atomic::AtomicU64::new(0);
+        let step = state().lock().unwrap().plan.clock_step_ms;
+        match step {
+            Some(ms) => {
+                let n = TICKS.fetch_add(1, std::sync::atomic::Ordering::SeqCst) + 1;
+                Instant(std::time::Duration::from_millis(n.saturating_mul(ms)))
+            }
+            None => Instant(START.get_or_init(std::time::Instant::now).elapsed()),
+        }
+    }
+}
+
+impl std::ops::Sub for Instant {
+    type Output = std::time::Duration;
+    fn sub(self, other: Instant) -> std::time::Duration {
+        self.0.saturating_sub(other.0)
     }
 }
